@@ -808,6 +808,35 @@ fn lower_closure_param(ctx: &mut LowerCtx, node: cst::ClosureParam) -> Option<as
     Some(ast::ClosureParam { name, ty, astptr })
 }
 
+/// Decodes the escape sequences the lexer accepts inside a string literal
+/// (`\"`, `\\`, `\/`, `\b`, `\f`, `\n`, `\r`, `\t`, `\uXXXX`); `raw` is the text between the quotes.
+fn unescape_string_literal(raw: &str) -> String {
+    let mut out = String::with_capacity(raw.len());
+    let mut chars = raw.chars();
+    while let Some(ch) = chars.next() {
+        if ch != '\\' {
+            out.push(ch);
+            continue;
+        }
+        match chars.next() {
+            Some('b') => out.push('\u{8}'),
+            Some('f') => out.push('\u{c}'),
+            Some('n') => out.push('\n'),
+            Some('r') => out.push('\r'),
+            Some('t') => out.push('\t'),
+            Some('u') => {
+                let hex: String = chars.by_ref().take(4).collect();
+                let code = u32::from_str_radix(&hex, 16).unwrap_or(0xFFFD);
+                out.push(char::from_u32(code).unwrap_or('\u{FFFD}'));
+            }
+            // `\"`, `\\`, `\/` denote the character itself
+            Some(other) => out.push(other),
+            None => out.push('\\'),
+        }
+    }
+    out
+}
+
 fn lower_expr(ctx: &mut LowerCtx, node: cst::Expr) -> Option<ast::Expr> {
     lower_expr_with_args(ctx, node, Vec::new())
 }
@@ -1096,7 +1125,7 @@ fn lower_expr_with_args(
                 return None;
             }
             Some(ast::Expr::EString {
-                value: value.to_string(),
+                value: unescape_string_literal(value),
                 astptr,
             })
         }
@@ -2019,7 +2048,7 @@ fn lower_pat(ctx: &mut LowerCtx, node: cst::Pattern) -> Option<ast::Pat> {
                 return None;
             };
             Some(ast::Pat::PString {
-                value: value.to_string(),
+                value: unescape_string_literal(value),
                 astptr,
             })
         }
